@@ -1,4 +1,5 @@
 import OnetVerif.Model.Util
+import OnetVerif.Model.C11Store
 /-! Model for property C11: finished instances and the lifetime of a tree on one server, for one
 tree id.  Anchors: `overlay.go` `TransmitMsg` (137-225: `getAndRefresh`, the `transmitMux` region
 with the done test, instance creation, `treeStorage.Set` after creation), `nodeDone`/`nodeDelete`/
@@ -104,6 +105,7 @@ namespace Drv
 
 structure State where
   s : St := {}
+  store : Store.Drv.State := {}   -- cases of the class `store` drive the tree store on its own
 
 def init : State := {}
 
@@ -136,6 +138,7 @@ timer fires if armed), `localstart <tok>`. -/
 def step (st : State) (toks : List String) : State × String :=
   let x := st.s
   match toks with
+  | "store" :: rest => let (t, o) := Store.Drv.step st.store rest; ({ st with store := t }, o)
   | ["arrive", tok, m] =>
     match tok.toNat?, m.toNat? with
     | some tok, some m =>
@@ -143,7 +146,7 @@ def step (st : State) (toks : List String) : State × String :=
       | some x1 =>
         let i := x1.thr.length - 1
         let x2 := (C11.step x1 (.thread i)).getD x1
-        ({ s := x2 }, s!"pc={(x2.thr[i]?.map (fun t => pcName t.pc)).getD "?"} {obs x2}")
+        ({ st with s := x2 }, s!"pc={(x2.thr[i]?.map (fun t => pcName t.pc)).getD "?"} {obs x2}")
       | none => (st, "disabled")
     | _, _ => (st, "bad-op")
   | ["thread", tok, m] =>
@@ -155,7 +158,7 @@ def step (st : State) (toks : List String) : State × String :=
         | some x1 =>
           -- a creating thread goes on through `Set`, the constructor and the hand-over
           let x2 := finish x1 i false
-          ({ s := x2 }, s!"pc={(x2.thr[i]?.map (fun t => pcName t.pc)).getD "?"} {obs x2}")
+          ({ st with s := x2 }, s!"pc={(x2.thr[i]?.map (fun t => pcName t.pc)).getD "?"} {obs x2}")
         | none => (st, "disabled")
       | none => (st, "disabled")
     | _, _ => (st, "bad-op")
@@ -168,7 +171,7 @@ def step (st : State) (toks : List String) : State × String :=
         match C11.step x (.thread i) with
         | some x1 =>
           let x2 := finish x1 i true
-          ({ s := x2 }, s!"pc={(x2.thr[i]?.map (fun t => pcName t.pc)).getD "?"} {obs x2}")
+          ({ st with s := x2 }, s!"pc={(x2.thr[i]?.map (fun t => pcName t.pc)).getD "?"} {obs x2}")
         | none => (st, "disabled")
       | none => (st, "disabled")
     | _, _ => (st, "bad-op")
@@ -179,7 +182,7 @@ def step (st : State) (toks : List String) : State × String :=
               | some t => t.tok == tok && t.pc == .bind | none => false) with
       | some i =>
         match C11.step x (.thread i) with
-        | some x1 => ({ s := x1 }, s!"pc=fin {obs x1}")
+        | some x1 => ({ st with s := x1 }, s!"pc=fin {obs x1}")
         | none => (st, "disabled")
       | none => (st, "disabled")
     | none => (st, "bad-op")
@@ -187,12 +190,12 @@ def step (st : State) (toks : List String) : State × String :=
     match tok.toNat? with
     | some tok =>
       match C11.step x (.done tok) with
-      | some x1 => ({ s := x1 }, obs x1)
+      | some x1 => ({ st with s := x1 }, obs x1)
       | none => (st, "disabled")
     | none => (st, "bad-op")
   | ["wait"] =>
     match C11.step x .expire with
-    | some x1 => ({ s := x1 }, obs x1)
+    | some x1 => ({ st with s := x1 }, obs x1)
     | none => (st, obs x)
   -- a peer asks for the tree (`handleRequestTree`): answered iff present; nothing else changes — in
   -- particular a scheduled removal stays scheduled
@@ -208,7 +211,7 @@ def step (st : State) (toks : List String) : State × String :=
       | some x1 =>
         let i := x1.thr.length - 1
         let x2 := finish x1 i false
-        ({ s := x2 }, obs x2)
+        ({ st with s := x2 }, obs x2)
       | none => (st, "disabled")
     | none => (st, "bad-op")
   | _ => (st, "bad-op")
